@@ -188,3 +188,7 @@ file_put_arr = array_writer('File_put_array', FH, r'^\tFile& operator<<\(const A
 sock_put_arr = array_writer('Socket_put_array', SK, r'^\tSocket& operator<<\(const Array<T>& x\)\s*$', r'^\tSocket& operator<<\(const T& x\)\s*$', FS_RULES,
                             'Socket::operator<<(const Array<T>&)')
 UNITS += [sb_put_arr, file_put_arr, sock_put_arr]
+
+# Socket << / >> move their bytes through Socket_::write / Socket_::read: the C10 units of those loops serve "reading the same types back returns the original values"
+from units.C10 import sock_read as _sr, sock_write as _sw
+UNITS += [_sr, _sw]
